@@ -1,6 +1,6 @@
 """C04 — crash at any instant: survivor cleanup restores a clean, usable system."""
 import core, re
-import pC09, pC10, pC04fs
+import pC09, pC10, pC04fs, pC04ports, pC04svc
 
 
 def run(ctx):
@@ -23,12 +23,18 @@ def run(ctx):
         # file-system level: node creation / orderly drop / dead-node cleanup killed at every system call
         # (strace injection), survivor verdict and leftover files against the step-level Lifecycle model
         pC04fs.fs_part(ctx)
+        # port level: a process with a node and ports dies between two API calls; a survivor cleans up and works on
+        pC04ports.ports_part(ctx)
+        # service level: the creator / opener of a service killed at every system call; survivors' clean-up, then the name is created again
+        pC04svc.svc_part(ctx)
     return core.finish(
         ctx, level="proof",
         rule="shared-memory level: RobustUniqueIndexSet and the registry Container with one logical thread (a process) killed after k atomic steps (k random in 0..44, i.e. at any "
              "point inside acquire / release / add / remove / recover / update_state), survivors recovering the dead owner and refreshing; each thread through its own mapping; every "
-             "atomic step compared with the crash-extended L2 model (Sys.withCrash); ownership / registry oracles on the implementation's trace alone. distinct = distinct (program, interleaving)",
-        extra_assumptions=["PARTIAL: only the shared-memory structures of the lifecycle (port/node registries = Container over RobustUniqueIndexSet) are covered by theorems; crash points at "
-                           "system-call granularity of node / service / port creation and the file-based cleanup are not modelled in Lean (see DESIGN.md §5 C04: what was observed by reading and by runs)",
+             "atomic step compared with the crash-extended L2 model (Sys.withCrash); ownership / registry oracles on the implementation's trace alone. distinct = distinct (program, interleaving). " + pC04fs.RULE_FS + ". " + pC04svc.RULE + ". " + pC04ports.RULE,
+        extra_assumptions=["PARTIAL: theorems cover (i) the shared-memory structures of the lifecycle (port/node registries = Container over RobustUniqueIndexSet) with a crash at any atomic step, "
+                           "(ii) the node's files with a kill at every system call of creation / drop / clean-up, (iii) publish-subscribe ports with the death of a node BETWEEN API calls (death + clean-up "
+                           "= orderly drop, expressed with the proved L1 model's own operations); (iv) the creator / opener of a publish-subscribe service killed at every system call, then clean-up and re-creation; "
+                           "a process killed INSIDE a port's creation or removal, and the other messaging patterns' service files, are not modelled",
                            "a death never runs destructors: the harness unwinds the logical thread; the traced components have no destructor with shared-memory effects",
-                           "sequentially consistent interleavings only"])
+                           "sequentially consistent interleavings only"] + pC04svc.ASSUMPTIONS + pC04ports.ASSUMPTIONS)
